@@ -324,7 +324,7 @@ def evaluate(ctx, cases, results, use_model=True):
         kind = '%s:%s' % (c['kind'], ('converted' if impl[1] else 'unchanged') if impl[0] == 'ok' else impl[1])
         ctx.count(case_key=(r['eff'], c['target']), nontrivial=uc.depth(eff) >= 3, kind=kind)
         infer_tag = None
-        if r.get('strict_err') and use_model and ctx.model_ok() and r.get('out_units') is not None:
+        if r.get('strict_err') and ctx.model_ok() and r.get('out_units') is not None:
             # what does the model of the unchanged traverse answer on this very output?  (2 = other exception)
             try:
                 extra = [tunjson(n) for n in r['extra_units']]
